@@ -34,10 +34,15 @@ type Engine struct {
 }
 
 type globalFacts struct {
-	n     int64   // number of elements of a slice/array literal (-1 unknown)
-	elems []int64 // constant integer elements (nil if not all constant)
-	isStr bool
-	str   string
+	n      int64   // number of elements of a slice/array literal (-1 unknown)
+	elems  []int64 // constant integer elements (nil if not all constant)
+	isStr  bool
+	str    string
+	nested [][]int64 // [][]byte literal: bytes of every element
+	isMap  bool
+	mapK   []int64 // map literal with constant integer keys and values
+	mapV   []int64
+	mapS   []string // map literal with constant string keys (values in mapV)
 }
 
 func NewEngine(P *Program, S *Specs) *Engine {
@@ -279,10 +284,53 @@ func literalFacts(info *types.Info, e ast.Expr) *globalFacts {
 	if !ok {
 		return nil
 	}
+	if _, isMap := under(tv.Type).(*types.Map); isMap {
+		gf := &globalFacts{isMap: true}
+		for _, el := range cl.Elts {
+			kv, ok := el.(*ast.KeyValueExpr)
+			if !ok {
+				return nil
+			}
+			ktv, ok1 := info.Types[kv.Key]
+			vtv, ok2 := info.Types[kv.Value]
+			if !ok1 || !ok2 || ktv.Value == nil || vtv.Value == nil || vtv.Value.Kind() != constant.Int {
+				return nil
+			}
+			v, _ := constant.Int64Val(vtv.Value)
+			switch ktv.Value.Kind() {
+			case constant.Int:
+				k, _ := constant.Int64Val(ktv.Value)
+				gf.mapK = append(gf.mapK, k)
+			case constant.String:
+				gf.mapS = append(gf.mapS, constant.StringVal(ktv.Value))
+			default:
+				return nil
+			}
+			gf.mapV = append(gf.mapV, v)
+		}
+		if len(gf.mapK) != 0 && len(gf.mapS) != 0 {
+			return nil
+		}
+		return gf
+	}
 	switch under(tv.Type).(type) {
 	case *types.Slice, *types.Array:
 	default:
 		return nil
+	}
+	// [][]byte{[]byte("..."), ...}
+	if sl, ok := under(tv.Type).(*types.Slice); ok {
+		if inner, ok := under(sl.Elem()).(*types.Slice); ok && typeKey(inner.Elem()) == "uint8" {
+			gf := &globalFacts{n: int64(len(cl.Elts))}
+			for _, el := range cl.Elts {
+				sub := literalFacts(info, el)
+				if sub == nil || sub.elems == nil {
+					return &globalFacts{n: int64(len(cl.Elts))}
+				}
+				gf.nested = append(gf.nested, sub.elems)
+			}
+			return gf
+		}
 	}
 	gf := &globalFacts{}
 	// handle positional and keyed elements
@@ -833,6 +881,23 @@ func (fx *fx) loadGlobal(st *State, g *ssa.Global) Value {
 				if gf.elems != nil && gf.n <= 512 {
 					el := under(T).(*types.Slice).Elem()
 					fx.globalElems(v.T, el, gf.elems)
+				}
+				if gf.nested != nil && len(gf.nested) <= 128 {
+					// slice of byte-slice literals: headers and contents of every element (entry memory)
+					fx.note("contents of immutable package-level tables are taken from their literals (no writes to them: frame property C20)")
+					el := under(T).(*types.Slice).Elem()
+					key := "M." + typeKey(el)
+					for i, bs := range gf.nested {
+						a := Add(v.T, Num(int64(i)))
+						ip := fx.enc.Decl(name+".e", "Int")
+						fx.enc.Assume(And(Gt(ip, "0"), Le(Add(ip, Num(int64(len(bs)))), fx.brk0),
+							Eq(Select(fx.heapOf(nil, key+".ptr"), a), ip),
+							Eq(Select(fx.heapOf(nil, key+".len"), a), Num(int64(len(bs)))),
+							Eq(Select(fx.heapOf(nil, key+".cap"), a), Num(int64(len(bs))))))
+						for j, b := range bs {
+							fx.enc.Assume(Eq(Select(fx.heapOf(nil, "M.uint8"), Add(ip, Num(int64(j)))), Num(b)))
+						}
+					}
 				}
 			case KArray:
 				if gf.elems != nil && gf.n <= 512 {
